@@ -72,14 +72,14 @@ fn common(s: &str) {
 }
 
 pub fn h_any() {
-    let n = sym::bound(5, 7);
+    let n = sym::bound(5, 5);
     let s = sym::any_str("s", "utf8", 0, n);
     common(&s);
 }
 
 /// grammar-directed names: several '-', 'nb' inside base / several times, long digit runs
 pub fn h_tokens() {
-    let nt = sym::bound(3, 4);
+    let nt = sym::bound(3, 3);
     let mut s = String::new();
     let k = sym::choose("ntok", nt + 1);
     let mut i = 0;
